@@ -89,16 +89,19 @@ int uv_fs_poll_start(uv_fs_poll_t* handle,
   ctx->parent_handle = handle;
   memcpy(ctx->path, path, len + 1);
 
-  err = uv_timer_init(loop, &ctx->timer_handle);
-  if (err < 0)
-    goto error;
-
-  ctx->timer_handle.flags |= UV_HANDLE_INTERNAL;
-  uv__handle_unref(&ctx->timer_handle);
-
+  /* Submit the stat request first: when it fails nothing refers to ctx yet.
+   * Once the timer is initialized it is linked into loop->handle_queue and
+   * ctx may only be freed from timer_close_cb.  uv_timer_init() cannot fail.
+   */
   err = uv_fs_stat(loop, &ctx->fs_req, ctx->path, poll_cb);
   if (err < 0)
     goto error;
+
+  err = uv_timer_init(loop, &ctx->timer_handle);
+  assert(err == 0);
+
+  ctx->timer_handle.flags |= UV_HANDLE_INTERNAL;
+  uv__handle_unref(&ctx->timer_handle);
 
   if (handle->poll_ctx != NULL)
     ctx->previous = handle->poll_ctx;
